@@ -1,1 +1,15 @@
-fn main(){ println!("stub"); }
+//! vk: conformance drivers for the in-memory kernels (arrow-select/arith/ord/cast/string/row/buffer).
+//! `vk <driver> --tier quick|thorough --seed N --out DIR`
+mod c03;
+
+fn main() {
+    let args = vcore::Args::parse();
+    vcore::quiet_panics();
+    match args.driver.as_str() {
+        "c03" => c03::run(&args),
+        other => {
+            eprintln!("unknown driver {other}");
+            std::process::exit(2);
+        }
+    }
+}
